@@ -54,6 +54,12 @@ def _sql(st: str, rnd: random.Random, q: str = "") -> str:
     if k == "u":
         t, kk, v = st[1:].split(".")
         return f"update {q}t{t} set v = {v} where k = {kk}"
+    if st.startswith("tr"):
+        return f"truncate table {q}t{st[2:]}"
+    if st.startswith("ac"):
+        return f"comment on table {q}t{st[2:]} is 'note'"
+    if st == "av":
+        return "set v13 = 3"
     if st.startswith("mu"):
         t, kk, v = st[2:].split(".")
         # a successful MERGE that updates the row with key kk (same effect as the UPDATE; several engine statements)
@@ -90,6 +96,9 @@ def _canon(st: str, cur) -> str:
     elif k == "u":
         if len(rows) == 1 and len(rows[0]) == 2 and rows[0][1] == 0:
             return f"n{rows[0][0]}"
+    elif k in "ta":
+        if rows == [("Statement executed successfully.",)]:
+            return "S"
     elif k == "m":
         # MERGE answers its update count as a Decimal, and NULL instead of 0 when nothing matched (C12's business)
         if len(rows) == 1 and len(rows[0]) == 1:
@@ -159,6 +168,7 @@ def _real_case(case) -> list[str]:
 def _real_case_in(case, rnd, out, tmp) -> list[str]:
     import fakesnow
     import snowflake.connector
+    import snowflake.connector.errors as se_
     with (fakesnow.patch(db_path=tmp) if tmp else fakesnow.patch()):
         setup = snowflake.connector.connect(database="db1", schema="s1")
         sc = setup.cursor()
@@ -205,6 +215,31 @@ def _real_case_in(case, rnd, out, tmp) -> list[str]:
                 elif k == "R":
                     r = _in_thread(conns[int(ev[2:])].rollback) if ev[1] == "t" else conns[int(ev[1:])].rollback()
                     out.append("ok" if r is None else f"?rollback returned {r!r}")
+                elif k == "D":           # cursor.description on a fresh cursor of connection c: raises (nothing was executed)
+                    try:
+                        conns[int(ev[2:])].cursor().description  # noqa: B018
+                        out.append("?description did not raise")
+                    except se_.Error as e:
+                        # on a connection without a current database the pre-check (90105) raises before any engine call
+                        out.append("-" if getattr(e, "errno", None) == 90105 else _canon_exc(e))
+                elif k == "X" and ev[1] == "w":     # the statement runs inside `with cursor:` and its error leaves the block
+                    ci, st = ev[2:].split(":")
+                    try:
+                        with curs[int(ci)] as cur:
+                            cur.execute(_sql(st, rnd, qual[int(ci)]))
+                            out.append(_canon(st, cur))
+                    except common.Infra:
+                        raise
+                    except Exception as e:  # noqa: BLE001
+                        out.append(_canon_exc(e))
+                elif k == "X" and ev.split(":")[1][:2] == "pw":   # write_pandas on the cursor's connection
+                    import pandas as pd
+                    import snowflake.connector.pandas_tools as pt
+                    ci, st = ev[1:].split(":")
+                    t, kk, v = st[2:].split(".")
+                    conn_of_cur = curs[int(ci)]._conn  # noqa: SLF001 - the cursor's own connection object
+                    r = pt.write_pandas(conn_of_cur, pd.DataFrame({"K": [int(kk)], "V": [int(v)]}), f"T{t}", database="DB1", schema="S1")
+                    out.append(f"n{r[2]}" if r[0] else f"?write_pandas returned {r[:3]!r}")
                 elif k == "X":
                     ci, st = ev[1:].split(":")
                     cur = curs[int(ci)]
@@ -280,6 +315,14 @@ CORE_SCRIPTS = [
     ["b", "i@.1.1", "wn", "s@", "r"],
     ["b", "i@.2.2", "we", "c"],
     ["b", "i@.3.3", "wc", "r"],
+    # statement kinds with their own branch in _execute, inside a transaction: nothing is published before COMMIT, ROLLBACK undoes it
+    ["b", "i@.1.1", "tr@", "s@", "r"],
+    ["b", "ac@", "av", "i@.2.2", "r"],
+    ["b", "i@.5.5", "pw@.6.6", "r"],
+    ["pw@.7.7", "s@", "b", "pw@.8.8", "c"],
+    # an error leaving a `with cursor:` block, a raising cursor.description: the open transaction goes on
+    ["b", "i@.3.3", "wfc", "s@", "c"],
+    ["b", "i@.4.4", "dn", "wft", "r"],
 ]
 # scripts with a statement in a known-defect region
 FINDING_SCRIPTS = [
@@ -312,6 +355,10 @@ def _pair_case(rnd, a: list[str], b: list[str], order: list[int], policy: str, a
             ev.append(f"W{st[1]}{c}")                      # a `with conn:` block ends (normally / by an exception)
         elif st == "wc":
             ev.append(f"Wc{c * ncur + flip[c]}")           # a `with cursor:` block ends
+        elif st in ("wfc", "wft"):
+            ev.append(f"Xw{c * ncur + flip[c]}:f{st[2]}")   # a failing statement inside `with cursor:`, the error leaves the block
+        elif st == "dn":
+            ev.append(f"Dn{c}")                            # a raising cursor.description
         else:
             ev.append(f"X{c * ncur + flip[c]}:{st}")
             flip[c] ^= 1  # alternate between the connection's cursors
@@ -345,7 +392,7 @@ def _random_script(rnd, c: int, n: int, envelope: bool) -> list[str]:
         elif r < 0.89:
             out.append(f"u{c}.{rnd.choice([0, 1, 2, 3, 9])}.{rnd.randrange(10)}")
         elif r < 0.93:
-            out.append(rnd.choice(["ft", "fc", f"fm{c}", f"mu{c}.9.{rnd.randrange(10)}", "wn", "we",
+            out.append(rnd.choice(["ft", "fc", f"fm{c}", f"mu{c}.9.{rnd.randrange(10)}", "wn", "we", "wfc", "dn", f"tr{c}", f"ac{c}", "av", f"pw{c}.{rnd.randrange(4)}.{rnd.randrange(10)}",
                                    f"em{c}.{rnd.randrange(4)}.{rnd.randrange(4)}.{rnd.randrange(10)}", f"ef{c}.{rnd.randrange(4)}.{rnd.randrange(10)}"]))
         elif r < 0.96:
             out.append("k")
@@ -375,6 +422,10 @@ def _random_case(rnd, nconn: int, length: int, envelope: bool, spell: int) -> di
             ev.append(("M" if st == "c" else "R") + str(c))
         elif st in ("wn", "we"):
             ev.append(f"W{st[1]}{c}")
+        elif st in ("wfc", "wft"):
+            ev.append(f"Xw{c * ncur + rnd.randrange(ncur)}:f{st[2]}")
+        elif st == "dn":
+            ev.append(f"Dn{c}")
         else:
             ev.append(f"X{c * ncur + rnd.randrange(ncur)}:{st}")
         if rnd.random() < 0.35:
@@ -446,14 +497,14 @@ def _cases(chk) -> list[dict]:
             cases.append(dict(_variant(base, False, True), gen="fixed-dbpath"))
             cases.append(dict(_variant(base, False, False, True), gen="fixed-threads"))
     # executemany and with-block scripts against a reader, dense probes
-    for si in range(16, 22):
+    for si in range(16, 28):
         a, b = CORE_SCRIPTS[si], CORE_SCRIPTS[10]
         for order in rnd.sample(list(_interleavings(len(a), len(b))), 4):
             cases.append(dict(_pair_case(rnd, _inst(a, 0), _inst(b, 1), order, "dense", False, rnd.randrange(1 << 30)), gen="fixed-many-with"))
     # A. exhaustive statement-level interleavings of script pairs
     pairs = [(a, b) for a in range(len(CORE_SCRIPTS)) for b in range(len(CORE_SCRIPTS))]
     rnd.shuffle(pairs)
-    npairs = 12 if quick else 60    # thorough: a seeded sample of the ordered pairs (all of them is 125 CPU-min)
+    npairs = 12 if quick else 48    # thorough: a seeded sample of the ordered pairs (all of them is 125 CPU-min)
     for pi, (ia, ib) in enumerate(pairs[:npairs]):
         a, b = _inst(CORE_SCRIPTS[ia], 0), _inst(CORE_SCRIPTS[ib], 1)
         policy = ("dense", "others", "sparse", "others")[pi % 4] if quick else None
@@ -503,6 +554,25 @@ def _model_view(case):
                 fixed = "B"
         elif e[0] in "MR" and e[1] == "t":
             mev.append(e[0] + e[2:])
+        elif e[0] == "D":
+            # a description that raises is a failing Catalog statement on that connection (DESCRIBE of nothing: 2003): like any
+            # statement that binds against the database it pins a lazy snapshot, and it leaves the transaction usable
+            first = [i for i, x in enumerate([y for y in case["events"] if y[0] == "K"]) if int(x.lstrip("Kt")) == int(e[2:])]
+            opened = [y for y in case["events"] if y[0] == "C"]
+            unnamed = int(e[2:]) < len(opened) and opened[int(e[2:])] == "Cn"
+            mev.append(f"X{first[0]}:ft" if first and not unnamed else "Wn" + e[2:])
+        elif e[0] == "X" and e[1] == "w":
+            mev.append("X" + e[2:])                                    # same statement, its error merely leaves a with-block
+        elif e[0] == "X" and e.split(":")[1][:2] == "pw":
+            mev.append(e.split(":")[0] + ":i" + e.split(":")[1][2:])    # write_pandas of one row = that INSERT
+        elif e[0] == "X" and e.split(":")[1][:2] == "tr":
+            mev.append(e.split(":")[0] + ":z" + e.split(":")[1][2:])
+            fixed = "S"                                                # TRUNCATE answers the status row
+        elif e[0] == "X" and e.split(":")[1][:2] == "ac":
+            mev.append(e.split(":")[0] + ":m")
+        elif e[0] == "X" and e.split(":")[1] == "av":
+            mev.append(e.split(":")[0] + ":k")
+            fixed = "S"
         else:
             mev.append(re.sub(r":mu", ":u", re.sub(r":fm\d*$", ":fm", e)))
         rmap.append(len(mev) - 1)
@@ -541,7 +611,7 @@ def _check(chk, case, real, reply) -> None:
     def view(obs, i):
         o = _norm_model(mev[rmap[i]], obs[rmap[i]])
         # executemany whose second row cannot be bound: the bind error is what the caller sees – unless the first row already failed
-        return expect[i] if (expect[i] and o.startswith("n")) else o
+        return expect[i] if (expect[i] and (o.startswith("n") or o == "1")) else o
     impl = [view(mi, i) for i in range(len(evs))]
     spec = [view(ms, i) for i in range(len(evs))]
     key = reply.get("finding", "-")
